@@ -1546,7 +1546,7 @@ class Emitter:
                 t = rd['type']['qualType'].strip()
                 is_ref = t.endswith('&')
                 if not is_ref and not self._is_local(rd['id']):
-                    return self.global_var(rd)
+                    return self.global_var(rd, e)
             return '(*%s)' % name if is_ref else name
         raise ExtractError('no rule for DeclRefExpr to %s %s' % (rd['kind'], rd.get('name')))
 
@@ -1559,10 +1559,22 @@ class Emitter:
             p = self.p.parent.get(p.get('id'))
         return False
 
-    def global_var(self, rd):
+    def global_var(self, rd, e=None):
         name = rd['name']
         if name in GLOBAL_VARS:
             return GLOBAL_VARS[name]
+        # a namespace-scope / static object: say whether this use can modify it (not const-qualified and not
+        # immediately read through an lvalue-to-rvalue or to-const conversion); bin/check reports such a use from
+        # an operation served under C18 as a failed frame obligation
+        qt = rd['type']['qualType'].strip()
+        par = self.p.parent.get(e['id']) if e is not None and 'id' in e else None
+        reads = qt.startswith('const ') or (
+            par is not None and par.get('kind') == 'ImplicitCastExpr' and (
+                par.get('castKind') == 'LValueToRValue' or
+                (par.get('castKind') == 'NoOp' and par.get('type', {}).get('qualType', '').startswith('const '))))
+        if not reads:
+            raise ExtractError('no rule for global variable %s: WRITES-SHARED-STATE object of type %s outside the '
+                               'function is used as a modifiable lvalue' % (name, qt))
         raise ExtractError('no rule for global variable %s' % name)
 
     def rv_CXXThisExpr(self, e, out):
